@@ -70,6 +70,8 @@ def ann_kinds():
     k('dot-colon', lambda t, a, a2: (['B {},4,2'.format(a), '. {}'.format(t), ': forced continuation', '. third'], None))
     k('dot-colon-blank', lambda t, a, a2: (['B {},6,2'.format(a), '. {}'.format(t), ': forced continuation', '. ', '. '], None))
     k('dot-colon-blank2', lambda t, a, a2: (['B {},8,2'.format(a), '. first', ': {}'.format(t), '. ', '. last', ': and more'], None))
+    # a multi-instruction comment in which a '}' comes before its matching '{' (brace balance 0, lowest depth -1)
+    k('dot-revbrace', lambda t, a, a2: (['B {},4,2 }}'.format(a), '. {', '. {}'.format(t)], None))
     k('dot-header', lambda t, a, a2: (['. Title here', '.', '. {}'.format(t), '.', '.   A Input', '. O:B Output', '.', '. Start comment.'], ''))
     for d in ('label=START', 'keep', 'nowarn', 'ignoreua', 'rem=hello there', 'org', 'equ=FOO=1', 'assemble=2', 'defb=1,2', 'if({asm})(label=X)',
               'replace=/foo/bar', 'expand=#LET(x=1)', 'start', 'end', 'isub=DEFB 1', 'ofix=DEFB 2 ; fixed', 'rsub=!{}'.format(A + 1),
@@ -119,7 +121,7 @@ def allowed(kname, text, fill, btype):
         return False
     if kname.startswith('M-tail-C') != (fill == 'ops1') and (kname.startswith('M-tail-C') or fill == 'ops1'):
         # the 1-byte-instruction fill is used for (and only for) the M-tail kinds and the plain header kinds
-        if kname.startswith('M-tail-C') or kname in ('icomment', 'multi', 'M', 'M-nolen', 'dot-colon', 'M-sandwich-B', 'M-sandwich-C', 'M-sandwich-W', '@ignoreua:i', '@bytes', 'dot-colon-blank', 'dot-colon-blank2'):
+        if kname.startswith('M-tail-C') or kname in ('icomment', 'multi', 'M', 'M-nolen', 'dot-colon', 'M-sandwich-B', 'M-sandwich-C', 'M-sandwich-W', '@ignoreua:i', '@bytes', 'dot-colon-blank', 'dot-colon-blank2', 'dot-revbrace'):
             return False
     return True
 
